@@ -45,7 +45,7 @@ func budget(tier string) time.Duration {
 	if tier == "thorough" {
 		return 25 * time.Minute
 	}
-	return 150 * time.Second
+	return 240 * time.Second
 }
 
 func init() {
